@@ -98,6 +98,7 @@ print << "@@1:" << bar 7 << " " << baz() << newline;
 print << "@@2:" << bar 8 << newline;
 '''
 SUBST_VALUES = ("x01", "x80", "00", "ff")
+COUNT_VALUES = ("dec", "inc", "half")	# for bytes of lengths, offsets and counts: off by one, halved
 
 
 def subst_byte(b, how):
@@ -105,6 +106,12 @@ def subst_byte(b, how):
         return b ^ 0x01
     if how == "x80":
         return b ^ 0x80
+    if how == "dec":
+        return (b - 1) & 0xFF
+    if how == "inc":
+        return (b + 1) & 0xFF
+    if how == "half":
+        return b >> 1 if b > 1 else 0x7F
     if how == "00":
         return 0x00 if b != 0 else 0x55
     return 0xFF if b != 0xFF else 0xAA
@@ -349,6 +356,14 @@ def gen_damages(rng, subj, tier):
         for o in hdr:		# every header / section-table / archive-header byte, in every tier
             for v in (SUBST_VALUES if tier == "thorough" else (rng.choice(SUBST_VALUES),)):
                 offs[(o, v)] = 1
+        # lengths, offsets and counts the reader trusts: the section count and the first and the last
+        # used entry of the section table get every value class in every tier (a length that is a
+        # little too small is the damage a clamped or skipped end test lets through)
+        for lo, hi, nm in subj["regions"]:
+            if nm.endswith(("header.numsect", "sectab.last.len", "sectab.last.off", "sectab.e0.len", "sectab.e0.off")):
+                for o in range(lo, hi):
+                    for v in SUBST_VALUES + COUNT_VALUES:
+                        offs[(o, v)] = 1
         for lo, hi, nm in subj["regions"]:
             if nm.startswith(("payload.", "member.payload.")):
                 for o in range(lo, min(hi, lo + (16 if tier == "thorough" else 4))):
